@@ -303,6 +303,29 @@ impl Arena {
         if ca.map_or(false, |x| x.is_nan()) || cb.map_or(false, |x| x.is_nan()) {
             return self.konst(f64::NAN);
         }
+        // +-inf with a finite symbolic operand (sign-independent cases only)
+        match op {
+            B::Add | B::Sub => {
+                if let Some(x) = ca {
+                    if x.is_infinite() {
+                        return self.konst(x);
+                    }
+                }
+                if let Some(y) = cb {
+                    if y.is_infinite() {
+                        return self.konst(if op == B::Add { y } else { -y });
+                    }
+                }
+            }
+            B::Div => {
+                if let Some(y) = cb {
+                    if y.is_infinite() {
+                        return self.konst(0.0);
+                    }
+                }
+            }
+            _ => {}
+        }
         match op {
             B::Add => {
                 if ca == Some(0.0) {
@@ -436,9 +459,33 @@ impl Arena {
         }
     }
 
+    /// IEEE comparison when one side is a non-finite constant (symbolic values are finite)
+    fn nonfinite_cmp(&self, a: u32, b: u32, strict: bool, equal: bool) -> Option<bool> {
+        let (x, y) = (self.as_const(a), self.as_const(b));
+        if x.map_or(false, |v| v.is_nan()) || y.map_or(false, |v| v.is_nan()) {
+            return Some(false);
+        }
+        let _ = strict;
+        if let Some(v) = x {
+            if v.is_infinite() {
+                // a = +-inf, b finite symbolic
+                return Some(if equal { false } else { v < 0.0 });
+            }
+        }
+        if let Some(v) = y {
+            if v.is_infinite() {
+                return Some(if equal { false } else { v > 0.0 });
+            }
+        }
+        None
+    }
+
     pub fn lt(&mut self, a: u32, b: u32) -> u32 {
         if let (Some(x), Some(y)) = (self.as_ground(a), self.as_ground(b)) {
             return self.cbool(x < y);
+        }
+        if let Some(r) = self.nonfinite_cmp(a, b, true, false) {
+            return self.cbool(r);
         }
         if a == b {
             return C_FALSE;
@@ -449,6 +496,9 @@ impl Arena {
         if let (Some(x), Some(y)) = (self.as_ground(a), self.as_ground(b)) {
             return self.cbool(x <= y);
         }
+        if let Some(r) = self.nonfinite_cmp(a, b, false, false) {
+            return self.cbool(r);
+        }
         if a == b {
             return C_TRUE;
         }
@@ -457,6 +507,9 @@ impl Arena {
     pub fn eq(&mut self, a: u32, b: u32) -> u32 {
         if let (Some(x), Some(y)) = (self.as_ground(a), self.as_ground(b)) {
             return self.cbool(x == y);
+        }
+        if let Some(r) = self.nonfinite_cmp(a, b, false, true) {
+            return self.cbool(r);
         }
         if a == b {
             return C_TRUE;
@@ -582,6 +635,50 @@ impl Arena {
         };
         self.csupport.insert(c, s.clone());
         s
+    }
+
+    /// short human-readable rendering (depth-limited) for debugging and evidence samples
+    pub fn show(&self, id: u32, depth: usize) -> String {
+        match &self.nodes[id as usize] {
+            Node::Const(b) => format!("{}", f64::from_bits(*b)),
+            Node::Rat(p, q) => format!("{}/{}", p, q),
+            Node::Var(v) => self.vars[*v as usize].name.clone(),
+            _ if depth == 0 => format!("#{}", id),
+            Node::Un(op, a) => format!("{}({})", op.name(), self.show(*a, depth - 1)),
+            Node::Bin(op, a, b) => {
+                let o = match op {
+                    B::Add => "+",
+                    B::Sub => "-",
+                    B::Mul => "*",
+                    B::Div => "/",
+                    B::Min => " min ",
+                    B::Max => " max ",
+                    B::Powf => "^",
+                    B::Atan2 => " atan2 ",
+                    B::Copysign => " copysign ",
+                    B::Rem => "%",
+                    B::Hypot => " hypot ",
+                };
+                format!("({}{}{})", self.show(*a, depth - 1), o, self.show(*b, depth - 1))
+            }
+            Node::Powi(a, n) => format!("{}^{}", self.show(*a, depth - 1), n),
+            Node::Root(a, k) => format!("root{}({})", k, self.show(*a, depth - 1)),
+            Node::Ite(c, a, b) => format!("ite({},{},{})", self.cshow(*c, depth - 1), self.show(*a, depth - 1), self.show(*b, depth - 1)),
+        }
+    }
+
+    pub fn cshow(&self, c: u32, depth: usize) -> String {
+        match &self.conds[c as usize] {
+            CNode::True => "true".into(),
+            CNode::False => "false".into(),
+            CNode::Lt(a, b) => format!("{} < {}", self.show(*a, depth), self.show(*b, depth)),
+            CNode::Le(a, b) => format!("{} <= {}", self.show(*a, depth), self.show(*b, depth)),
+            CNode::Eq(a, b) => format!("{} == {}", self.show(*a, depth), self.show(*b, depth)),
+            CNode::Not(i) => format!("!({})", self.cshow(*i, depth)),
+            CNode::And(a, b) => format!("({}) && ({})", self.cshow(*a, depth), self.cshow(*b, depth)),
+            CNode::Or(a, b) => format!("({}) || ({})", self.cshow(*a, depth), self.cshow(*b, depth)),
+            CNode::SignBit(n) => format!("signbit({})", self.show(*n, depth)),
+        }
     }
 
     /// concrete evaluation of a term under an assignment of the variables
